@@ -30,6 +30,8 @@ sub!(imports, "imports.rs");
 sub!(c15, "c15.rs");
 sub!(c16, "c16.rs");
 sub!(c18, "c18.rs");
+sub!(c08, "c08.rs");
+sub!(c17, "c17.rs");
 
 /// SplitMix64: every random choice of a run derives from one state.
 pub struct Rng(pub u64);
@@ -313,6 +315,8 @@ fn run() {
         "C15" => c15::run(&mut report),
         "C16" => c16::run(&mut report),
         "C18" => c18::run(&mut report),
+        "C08" => c08::run(&mut report),
+        "C17" => c17::run(&mut report),
         "C18child" => {
             c18::child();
             return;
